@@ -229,6 +229,27 @@ func c07Tasks(tier string) []mc.Task {
 			}})
 		}
 	}
+	// model re-use: the matrix of every 2x2 alignment over {A,C,G,T} computed with a model object that has
+	// already served another alignment (skewed / balanced composition, with a gap), 7 models x gamma off / 1
+	for _, model := range []string{"rawdist", "pdist", "jc", "k2p", "f81", "f84", "tn93"} {
+		for _, alpha := range []float64{0, 1} {
+			if alpha > 0 && (model == "rawdist" || model == "pdist") {
+				continue
+			}
+			model, alpha := model, alpha
+			ts = append(ts, mc.Task{Name: fmt.Sprintf("reuse-%s-a%v#0/1", model, alpha), Run: func(c *mc.Ctx) {
+				for _, prior := range [][]string{{"AAAAAC", "AAAACC"}, {"ACGT-A", "AGGTCA"}} {
+					forEachStringLen("ACGT", 4, nil, func(s []byte) bool {
+						cf := c07Case{Seqs: []string{string(s[:2]), string(s[2:])}, Model: model, Alpha: alpha, Cpus: 1, Prior: prior}
+						c07Check(c, cf)
+						cf.RmGaps = true
+						c07Check(c, cf)
+						return !c.Expired()
+					})
+				}
+			}})
+		}
+	}
 	return ts
 }
 
